@@ -27,7 +27,10 @@ TDerived == /\ Is("Derived") /\ Adv
             /\ LET cs == ToSet(Ev.cands)
                    used == ToSet(Ev.used)
                    must == {Chosen(Ev.cls, c) : c \in cs}
+                   \* (also: instances of ANOTHER typeclass that the selected instances legitimately ask for - the overriding EqSeq
+                   \*  of the @fp.ImportGiven package takes an Ord of the element type)
                    may == must \cup UNION {Embedded(Ev.cls, c) : c \in cs}
+                               \cup {Chosen(a.cls, a) : a \in ToSet(Ev.also)} \cup UNION {Embedded(a.cls, a) : a \in ToSet(Ev.also)}
                    never == UNION {Shadowed(Ev.cls, c) : c \in cs}
                IN /\ used \cap never = {}
                   /\ used \subseteq may
